@@ -136,13 +136,13 @@ package lastgersync
 // that the contract holds; the candidates are the L1 info leaves from the asked index on, in index order.
 //@ spec fn l2GerValue(g Hash) int
 //@ spec fn l1GerAt(i int) Hash
-//@ ghost var l1LastIndex int
+//@ ghost var gerL1LastIndex int
 //@ extern (*github.com/0xPolygon/cdk-contracts-tooling/contracts/pp/l2-sovereign-chain/polygonzkevmglobalexitrootv2.Polygonzkevmglobalexitrootv2Caller).GlobalExitRootMap (c, opts, arg0)
 //@   modifies nothing
 //@   ensures result1 == nil ==> result0 != nil && bigval(result0) == l2GerValue(hashOf(arg0)) && 0 <= bigval(result0) && bigval(result0) < 115792089237316195423570985008687907853269984665640564039457584007913129639936
 //@ interface github.com/agglayer/aggkit/lastgersync.L1InfoTreeQuerier.GetLastL1InfoTreeRoot (self, ctx)
 //@   modifies nothing
-//@   ensures result1 == nil ==> result0.Index == l1LastIndex
+//@   ensures result1 == nil ==> result0.Index == gerL1LastIndex
 //@ interface github.com/agglayer/aggkit/lastgersync.L1InfoTreeQuerier.GetInfoByIndex (self, ctx, index)
 //@   modifies nothing
 //@   ensures result1 == nil ==> result0 != nil && result0.GlobalExitRoot == l1GerAt(index)
@@ -150,11 +150,11 @@ package lastgersync
 //@ func (d *downloaderFEP) getGERsFromIndex
 //@   props C16
 //@   requires d != nil && d.l1InfoTreeSync != nil
-//@   requires 0 <= l1LastIndex && l1LastIndex < 4294967295 && fromL1InfoTreeIndex <= l1LastIndex + 1
+//@   requires 0 <= gerL1LastIndex && gerL1LastIndex < 4294967295 && fromL1InfoTreeIndex <= gerL1LastIndex + 1
 //@   modifies nothing
 //@   ensures[error-means-nothing] result1 != nil ==> result0 == nil
-//@   ensures[candidates-are-the-leaves-from-the-index-on-in-order] (result1 == nil && result0 != nil) ==> len(result0) == l1LastIndex - fromL1InfoTreeIndex + 1 && forall(k, 0, len(result0), result0[k] != nil && result0[k].L1InfoTreeIndex == fromL1InfoTreeIndex + k && result0[k].GlobalExitRoot == l1GerAt(fromL1InfoTreeIndex + k))
-//@   loop 0 invariant d != nil && d.l1InfoTreeSync != nil && fromL1InfoTreeIndex <= i && i <= lastRoot.Index + 1 && lastRoot.Index == l1LastIndex && len(gers) == i - fromL1InfoTreeIndex && off(gers) == 0 && ref(gers) != 0
+//@   ensures[candidates-are-the-leaves-from-the-index-on-in-order] (result1 == nil && result0 != nil) ==> len(result0) == gerL1LastIndex - fromL1InfoTreeIndex + 1 && forall(k, 0, len(result0), result0[k] != nil && result0[k].L1InfoTreeIndex == fromL1InfoTreeIndex + k && result0[k].GlobalExitRoot == l1GerAt(fromL1InfoTreeIndex + k))
+//@   loop 0 invariant d != nil && d.l1InfoTreeSync != nil && fromL1InfoTreeIndex <= i && i <= lastRoot.Index + 1 && lastRoot.Index == gerL1LastIndex && len(gers) == i - fromL1InfoTreeIndex && off(gers) == 0 && ref(gers) != 0
 //@   loop 0 invariant forall(k, 0, len(gers), gers[k] != nil && gers[k].L1InfoTreeIndex == fromL1InfoTreeIndex + k && gers[k].GlobalExitRoot == l1GerAt(fromL1InfoTreeIndex + k))
 
 // schema clause the reorg semantics and the one-event-per-block assumption rest on (C04, C16; A5), pinned
